@@ -577,12 +577,17 @@ func c18Compare(ex *c18Exchange, disableCompression bool, so *c18ServerObs, co *
 		if ex.noBodyStatus() && ex.ExplicitWH && so.NoBodyWrite != "" && so.NoBodyWrite != http.ErrBodyNotAllowed.Error() {
 			v("server|write-on-bodyless-status", "Write after WriteHeader(%d) returned %s, want http.ErrBodyNotAllowed", ex.Status, so.NoBodyWrite)
 		}
-		if !respMismatch && !ex.noBodyStatus() && len(so.WriteErrs) > 0 {
+		if !reqMismatch && !respMismatch && !ex.noBodyStatus() && len(so.WriteErrs) > 0 {
 			v("server|response-write-error", "%v", so.WriteErrs)
 		}
 	}
 
 	// ---- what the client saw
+	if reqMismatch {
+		// the request is malformed: the server may abort the exchange at any point (RFC 9114 4.1.2); only the
+		// reading side's error is demanded
+		return vs
+	}
 	if co.Err != "" {
 		if !reqMismatch && !respMismatch {
 			v("client|roundtrip-error", "%s", co.Err)
@@ -963,6 +968,20 @@ func c18ReportConn(l *evlog.Log, c *evlog.Case, cs *c18ConnCase, res *c18ConnRes
 		return
 	}
 	faults := len(cs.Schedule.Faults) > 0 || cs.Schedule.Rate != nil
+	// A QUIC flow-control error between two conforming endpoints kills the connection and every exchange on it:
+	// one violation under its own signature (the defect is in the transport, not in http3) instead of many.
+	for i := range res.Exchanges {
+		for _, v := range res.Viols[i] {
+			if strings.Contains(v.Detail, "FLOW_CONTROL_ERROR") {
+				c.Violation("C18|quic|FLOW_CONTROL_ERROR-between-conforming-endpoints|client="+cs.Client, fmt.Sprintf("exchange %d of %s: %s", res.Exchanges[i].ID, cs.Name, v.Detail),
+					map[string]any{"exchange": &res.Exchanges[i], "conn": cs})
+				for j := range res.Viols {
+					res.Viols[j] = nil
+				}
+				break
+			}
+		}
+	}
 	for i := range res.Exchanges {
 		ex := &res.Exchanges[i]
 		fp := ex.fingerprint(res.Conc[i], cs.Client, faults, cs.Logger)
